@@ -120,6 +120,7 @@ class O(object):
   def __init__(self):
     self.x = 1
     self.y = 2
+    self.n = None
 
   def m(self, v):
     LOG.append(('m', repr(v)))
